@@ -160,9 +160,27 @@ class Typer:
         return t in ('pos', 'count', 'version', 'data') or t.endswith(('.tell()', '_version')) or isinstance(const(a), (int, float))
 
     def classify_iter_item(self, it, depth):
-        # for x in sorted(<genexpr>) / sorted(map(nutils_hash, data))
+        # for x in sorted(<genexpr>) / sorted(map(nutils_hash, data)) / the same without sorted / a list that was filled by append
+        if depth > 8:
+            return [RAW]
+        if isinstance(it, (ast.GeneratorExp, ast.ListComp)):
+            return self.classify(it.elt, depth + 1)
+        if isinstance(it, ast.Call) and method_name(it) == 'map' and it.args and src(it.args[0]).endswith('nutils_hash'):
+            return [DIGEST]
+        if isinstance(it, ast.Call) and method_name(it) in ('list', 'tuple', 'reversed') and len(it.args) == 1:
+            return self.classify_iter_item(it.args[0], depth + 1)
+        if isinstance(it, ast.Name):
+            kinds = None
+            sources = [v for kind, v in self.env.get(it.id, []) if kind == 'expr' and not (isinstance(v, (ast.List, ast.Tuple)) and not v.elts)]
+            items = [c.args[0] for c in ast.walk(self.f.node) if isinstance(c, ast.Call) and isinstance(c.func, ast.Attribute) and c.func.attr == 'append'
+                     and isinstance(c.func.value, ast.Name) and c.func.value.id == it.id and len(c.args) == 1]
+            for k in [self.classify_iter_item(v, depth + 1) for v in sources] + [self.classify(e, depth + 1) for e in items]:
+                kinds = k if kinds is None else kinds if kinds == k else [RAW]
+            return kinds if kinds is not None else [RAW]
         if isinstance(it, ast.Call) and method_name(it) == 'sorted' and it.args:
             inner = it.args[0]
+            if isinstance(inner, ast.Name):
+                return self.classify_iter_item(inner, depth + 1)
             if isinstance(inner, (ast.GeneratorExp, ast.ListComp)):
                 return self.classify(inner.elt, depth + 1)
             if isinstance(inner, ast.Call) and method_name(inner) == 'map' and inner.args:
@@ -374,7 +392,7 @@ BRANCH_COMPONENTS = {
     '(bool, int, float, complex)': ['repr(data)'],
     't is str': ['data.encode()'],
     't is bytes': ['sha1(data)'],
-    '(list, tuple)': ['nutils_hash(item)', 'for item in data'],
+    '(list, tuple)': [('nutils_hash(item)', 'map(nutils_hash, data)'), ('for item in data', 'in map(nutils_hash, data)', 'in enumerate(data)')],   # a tuple lists alternative spellings
     't is dict': ['nutils_hash(k)', 'nutils_hash(v)', 'data.items()', 'sorted('],
     '(set, frozenset)': ['nutils_hash', 'data', 'sorted('],
     'io.BufferedIOBase': ['data.tell()', 'data.seek(0)', 'data.read(', 'data.seek(pos)'],
@@ -423,7 +441,7 @@ def check_branches(model, rep):
             if marker in t:
                 found.add(marker)
                 text = ' ; '.join(src(s) for s in body)
-                missing = [c for c in comps if c not in text]
+                missing = [c for c in comps if not any(a in text for a in ((c,) if isinstance(c, str) else c))]
                 rep.ob('R17.5', f.key, f.where(test), not missing, f'branch `{marker}` feeds {comps}' if not missing else
                        f'branch `{marker}` no longer feeds {missing}: values differing only there collide', statement=f'branch {marker}')
     missing = set(BRANCH_COMPONENTS) - found
